@@ -25,6 +25,7 @@ def no_caller_writes():
 class C19(Check):
     pid = 'C19'
     validate = True
+    fork_logging = True       # DEBUG logging on/off is a symbolic input of every path
     anchors = [('src/fast_ticc/cluster_label_assignment.py', 'assign_point_cluster_labels'),
                ('src/fast_ticc/admm/front_end.py', 'admm_optimize_theta'),
                ('src/fast_ticc/admm/solver.py', 'run_admm_optimization'),
